@@ -17,6 +17,7 @@ RULE = ('bytes: every opcode cell (1-byte, 0F, 0F38, 0F3A maps) x all 256 ModRM 
         'at width boundaries, a symbol) for 14 mnemonics in both syntaxes, plus token deletions/duplications/swaps of well-formed lines. '
         'A case = the byte string or the text line (+syntax); non-trivial = the decoder accepted the bytes / the assembler returned or '
         'raised its documented ValueError (every case exercises the monitor; distinct cases are counted).')
+RULE += ' Round 6: the same bytes through a bytearray.'
 ASSUMPTIONS = ['the documented rejection of asm/asm_att is ValueError (raised by their p_error handlers and by asm itself)',
                'hangs are bounded by a 64-read logical bound per decode; a 20 s wall watchdog per case is inconclusive, not a violation']
 
@@ -200,6 +201,7 @@ def check_text(sh, line, syntax, cls=None):
     wit = {'line': line, 'syntax': syntax}
     f = x86mnemo.asm if syntax == 'intel' else x86mnemo.asm_att
     stage = 'asm' if syntax == 'intel' else 'asm_att'
+    shown = line if len(line) <= 200 else '%s...(%d characters)...%s' % (line[:60], len(line), line[-30:])
     try:
         with common.alarm_guard(20):
             r = f(line)
@@ -212,15 +214,15 @@ def check_text(sh, line, syntax, cls=None):
         return
     except RecursionError as e:
         sh.case((syntax, line), True, cls)
-        sh.violation('%s/RecursionError' % stage, '%s(%r) raised RecursionError' % (stage, line), wit)
+        sh.violation('%s/RecursionError' % stage, '%s(%r) raised RecursionError' % (stage, shown), wit)
         return
     except Exception as e:
         sh.case((syntax, line), True, cls)
-        sh.violation(exc_key(stage, e, sys.exc_info()[2]), '%s(%r) raised %r' % (stage, line, e), wit)
+        sh.violation(exc_key(stage, e, sys.exc_info()[2]), '%s(%r) raised %s' % (stage, shown, repr(e)[:300]), wit)
         return
     sh.case((syntax, line), True, cls)
     if not isinstance(r, list) or any(not isinstance(c, bytes) for c in r):
-        sh.violation('%s/result-not-a-list-of-bytes' % stage, '%s(%r) returned %r' % (stage, line, r), wit)
+        sh.violation('%s/result-not-a-list-of-bytes' % stage, '%s(%r) returned %r' % (stage, shown, r), wit)
         return
     sh.counters['accepted' if r else 'empty_candidate_list'] += 1
     if len(sh.samples) < 4 and r:
@@ -342,6 +344,15 @@ def run_shard(shard, tier, seed):
             check_text(sh, l, 'intel', cls='wellformed:intel')
         for l in att:
             check_text(sh, l, 'att', cls='wellformed:att')
+        # literals of extreme length (beyond what int() converts by default: 4300 digits), decimal and hexadecimal, as immediate
+        # and as displacement: whatever the lexer's own error path does, the caller sees candidates or ValueError
+        import io, contextlib
+        for n in (20, 100, 4300, 4301, 5000, 20000):
+            for lit in ('1' * n, '9' * n, '0x' + 'f' * n, '0' * n + '7'):
+                for l, syn in (('mov eax, %s' % lit, 'intel'), ('add DWORD PTR [ebx+%s], 1' % lit, 'intel'), ('push %s' % lit, 'intel'),
+                               ('movl $%s, %%eax' % lit, 'att'), ('addl $1, %s(%%ebx)' % lit, 'att')):
+                    with contextlib.redirect_stdout(io.StringIO()):
+                        check_text(sh, l, syn, cls='long-literal:%s' % syn)
         for _ in range(1500):
             if rng.random() < 0.55:
                 t = rng.choice(intel).split()
